@@ -332,30 +332,24 @@ func diff(a, b string, metadata []jd.Metadata) (string, bool, error) {
 		renderOptions = append(renderOptions, jd.COLOR)
 	}
 	var (
-		str      string
-		haveDiff bool
+		str string
+		// The exit status reports whether the inputs differ. It is
+		// derived from the diff itself because some differences render
+		// as the same text as no difference (e.g. merge patch "{}").
+		haveDiff = len(diff) > 0
 	)
 	switch *format {
 	case "", "jd":
 		str = diff.Render(renderOptions...)
-		if str != "" {
-			haveDiff = true
-		}
 	case "patch":
 		str, err = diff.RenderPatch()
 		if err != nil {
 			return "", false, err
 		}
-		if str != "[]" {
-			haveDiff = true
-		}
 	case "merge":
 		str, err = diff.RenderMerge()
 		if err != nil {
 			return "", false, err
-		}
-		if str != "{}" {
-			haveDiff = true
 		}
 	default:
 		return "", false, fmt.Errorf("Invalid format: %q", *format)
@@ -388,30 +382,24 @@ func diffV2(a, b string, options []v2.Option) (string, bool, error) {
 		renderOptions = append(renderOptions, v2.COLOR)
 	}
 	var (
-		str      string
-		haveDiff bool
+		str string
+		// The exit status reports whether the inputs differ. It is
+		// derived from the diff itself because some differences render
+		// as the same text as no difference (e.g. merge patch "{}").
+		haveDiff = len(diff) > 0
 	)
 	switch *format {
 	case "", "jd":
 		str = diff.Render(renderOptions...)
-		if str != "" {
-			haveDiff = true
-		}
 	case "patch":
 		str, err = diff.RenderPatch()
 		if err != nil {
 			return "", false, err
 		}
-		if str != "[]" {
-			haveDiff = true
-		}
 	case "merge":
 		str, err = diff.RenderMerge()
 		if err != nil {
 			return "", false, err
-		}
-		if str != "{}" {
-			haveDiff = true
 		}
 	default:
 		return "", false, fmt.Errorf("Invalid format: %q", *format)
